@@ -2332,3 +2332,92 @@ Proof.
         destruct it; try (left; congruence). apply IH in Hin. rewrite Hl in Hin. exact Hin. }
     apply Hlog in Hin. destruct Hin as [H|(cid & H)]; [exact H|discriminate].
 Qed.
+
+(** ** the per-cleanup theorems, for every reachable state *)
+Section Reachable.
+  Variable b : list stmt.
+  Variable ops : list op.
+  Let c := final_core b ops.
+  Hypothesis He : err c = false.
+
+  Lemma r_wfs : wfs c. Proof. exact (proj1 (reachable_wf b ops)). Qed.
+  Lemma r_nd : nd c. Proof. exact (proj2 (proj2 (reachable_wf b ops))). Qed.
+
+  Theorem r_cleanup_runs_subtree : forall o, alive c o = true ->
+    forall l, clog (cleanup o c) = l ++ clog c ->
+    NoDup (cids l) /\
+    forall cid, In cid (cids l) <->
+                exists p ow, sub c o p /\ nth_error (owners c) p = Some ow /\ In cid (o_cleanups ow).
+  Proof. intros o Ho. apply cleanup_runs_subtree; auto using r_wfs. apply nd_pending, r_nd. Qed.
+
+  Theorem r_descendants_first : forall o, alive c o = true ->
+    forall l, clog (cleanup o c) = l ++ clog c ->
+    forall p a q r ar cid1 cid2,
+      sub c o p -> nth_error (owners c) p = Some a -> In cid2 (o_cleanups a) ->
+      In q (o_children a) -> alive c q = true -> sub c q r ->
+      nth_error (owners c) r = Some ar -> In cid1 (o_cleanups ar) ->
+      logged_before cid1 cid2 (cids l).
+  Proof. intros o Ho. apply descendants_first; auto using r_wfs, r_nd. Qed.
+
+  Theorem r_handles_disposed : forall o, alive c o = true ->
+    forall p ow, sub c o p -> nth_error (owners c) p = Some ow ->
+    gone_at (cleanup o c) p /\ forall k, In k (o_nodes ow) -> contains (cleanup o c) k = false.
+  Proof.
+    intros o Ho p ow Hs Hp. destruct (subtree_released c o r_wfs He Ho p ow Hs Hp) as (G & K).
+    split; [exact G|]. intros k Hk. unfold contains. rewrite (K k Hk). reflexivity.
+  Qed.
+
+  Theorem r_frame : forall o,
+    (forall p, ~ sub c o p -> nth_error (owners (cleanup o c)) p = nth_error (owners c) p) /\
+    (forall k, (forall p ow, sub c o p -> nth_error (owners c) p = Some ow -> ~ In k (o_nodes ow)) ->
+               get (cleanup o c) k = get c k).
+  Proof.
+    intros o. split.
+    - intros p Hn. apply exec_frame; auto using r_wfs.
+    - apply outside_values_untouched, r_wfs.
+  Qed.
+
+  Theorem r_context : forall o ty, o < length (owners c) -> nearest c ty o (use_ctx c o ty).
+  Proof. intros o ty. apply context_nearest_ancestor. exact (proj1 (proj2 (reachable_wf b ops))). Qed.
+
+  Theorem r_fuel : forall o k,
+    err (cleanup o c) = false /\ err (drop_owner o c) = false /\ err (dispose k c) = false.
+  Proof.
+    intros o k. repeat split; [apply cleanup_no_err|apply drop_no_err|apply dispose_no_err]; auto using r_wfs.
+  Qed.
+End Reachable.
+
+(** * examples (non-vacuity) *)
+Definition ex_body : list stmt :=
+  [SOnCleanup; SProvide 0 7;
+   SChild [SOnCleanup; SNewStored; SUse 0;
+           SChild [SOnCleanup; SNewSig; SMemo [SOnCleanup; SNewStored]]];
+   SEffect [SOnCleanup; SNewStored]].
+
+(** root cleanup after the effect and the memo ran (log newest first): the memo's scope, the
+    grandchild, the child, the effect's scope, and the root's own cleanup last *)
+Example ex_cleanup_order :
+  let c := final_core ex_body [RunAll []; ReadMemo 0] in
+  err c = false /\ alive c 0 = true /\
+  cids (clog (cleanup 0 c)) = [0; 3; 1; 2; 4] /\
+  arena_len c = 6 /\ arena_len (cleanup 0 c) = 0.
+Proof. vm_compute. auto. Qed.
+
+(** slot reuse after a cleanup: the old handle stays disposed (its version is stale) *)
+Example ex_no_aba :
+  let c1 := final_core [SChild [SNewStored]] [] in
+  let c2 := final_core [SChild [SNewStored]] [Cleanup 1; Alloc 0 1] in
+  contains c1 (0, 1) = true /\ contains c2 (0, 1) = false /\ contains c2 (0, 3) = true.
+Proof. vm_compute. auto. Qed.
+
+Example ex_context :
+  let c := final_core ex_body [] in
+  use_ctx c 2 0 = Some 7%Z /\ use_ctx c 2 1 = None /\
+  use_ctx (final_core ex_body [DropOwner 0]) 2 0 = None.
+Proof. vm_compute. auto. Qed.
+
+Example ex_all_gone :
+  let c := final_core ex_body [RunAll []; ReadMemo 0; DropOwner 0; DropOwner 1; DropOwner 2; RunAll []] in
+  err c = false /\ unowned c = false /\ arena_len c = 0 /\
+  forallb (fun ow => negb (o_alive ow)) (owners c) = true.
+Proof. vm_compute. auto. Qed.
